@@ -56,6 +56,9 @@ pub struct Cfg {
     /// sweeps (label, events, from): like `prefilled`, but the state after *every* event with index >= from
     /// is an initial state of the search (e.g. a long line, then Left x n: every cursor position)
     pub prefilled_sweep: Vec<(String, Vec<Ev>, usize)>,
+    /// marks (label, events, indices): like `prefilled_sweep`, but only the states after the listed event
+    /// indices are initial states (e.g. after 2^k +- 3 repetitions of a key: a wrapped counter is probed)
+    pub prefilled_marks: Vec<(String, Vec<Ev>, Vec<usize>)>,
     /// build the Cli with the deprecated `Cli::new` instead of the builder
     pub deprecated_ctor: bool,
     /// refine the canonical key by the one-step behaviour signature (small configurations only: every
@@ -688,6 +691,19 @@ impl<C: Autocomplete + Help> Model for SessModel<C> {
             }
             v.push((label.clone(), s));
         }
+        for (label, evs, marks) in &self.cfg.prefilled_marks {
+            let mut s = base.clone();
+            let mut mi = 0usize;
+            for (j, e) in evs.iter().enumerate() {
+                apply_in_place::<C>(&mut s, e);
+                while mi < marks.len() && marks[mi] < j {
+                    mi += 1;
+                }
+                if mi < marks.len() && marks[mi] == j {
+                    v.push((format!("{} @{}", label, j + 1), s.clone()));
+                }
+            }
+        }
         for (label, evs, from) in &self.cfg.prefilled_sweep {
             let mut s = base.clone();
             for (j, e) in evs.iter().enumerate() {
@@ -707,6 +723,7 @@ impl<C: Autocomplete + Help> Model for SessModel<C> {
     fn checked_prefill(&self) -> Vec<(String, Vec<Ev>)> {
         let mut v = self.cfg.prefilled.clone();
         v.extend(self.cfg.prefilled_sweep.iter().map(|(l, e, _)| (l.clone(), e.clone())));
+        v.extend(self.cfg.prefilled_marks.iter().map(|(l, e, _)| (l.clone(), e.clone())));
         v
     }
 
